@@ -24,7 +24,7 @@ PROP = {
              "random, registered through UpdateAVSInfo or SetAVSInfo, real OptIn of random operators, then minimum self delegation set to 0 / small / "
              "floor(self value) of some operator -1/0/+1 / huge; 1-3 epoch ends per case, each preceded by ledger / price changes and opt-in or opt-out, "
              "triggered either through OperatorKeeper.EpochsHooks().AfterEpochEnd(identifier, number) or through the real x/epochs BeginBlocker (61 s / "
-             "3601 s / 86401 s later, every subscribed hook runs); the directed AVS-address-case scenario comes first; distinct = distinct sha1 of the case; "
+             "3601 s / 86401 s later, every subscribed hook runs); the directed AVS-address-case regression scenario comes first; OptIn calls (a quarter of them, and all attempts with another letter case of the AVS address) are recorded with the rows before/after; distinct = distinct sha1 of the case; "
              "non-trivial = at least one trigger changed a stored value"),
     "explanation": ("Theorems (Coq) about the executable model of AfterEpochEnd / GetEpochEndAVSs / UpdateVotingPower / CalculateUSDValueForOperator / "
                     "TokensFromShares / CalculateUSDValue / GetOperatorOptedUSDValue for ALL ledgers, price tables, AVS registries and stored states: the "
@@ -44,8 +44,9 @@ PROP = {
         "not modelled: Int/LegacyDec overflow panics, the uint64->int64 conversion of MinSelfDelegation, TruncateInt64 overflow (generated values stay far below)",
     ],
     "assumptions": [
-        "C05_*_meets_statement are stated under no_aliases (no operator opted in under another letter case of a registered AVS address); that configuration is "
-        "the known finding C05-avs-address-case (C05_address_case_refuted)",
+        "the former known finding C05-avs-address-case is repaired by repo_patches/fix-c05-avs-address-case.patch (x/avs IsAVS accepts only the registered "
+        "spelling); the model's opt_in has the repaired check, alias_free (nothing stored under another spelling) is proved invariant and is the hypothesis of the "
+        "statement theorems; every recorded OptIn call is compared (check_optin) and monitored (optin_ok)",
         "in BeginBlocker-driven steps the feedistribution hook (runs before the operator hook) sometimes panics with 'negative coin amount' "
         "(AllocateTokensToStakers, finding owned by C17/C11); those triggers are counted (trigger.panic) and the case ends there",
     ],
